@@ -30,10 +30,10 @@ static LD const TINY_ = 2.2250738585072014e-308L;
 #define VP_K 32
 #endif
 
-enum { L_FIELD, L_POWLOG, L_TRIG, L_ITRIG, L_HYP, L_IHYP, L_REALARG, L_PAIRS, L_Q1, L_Q2, L_Q3, L_Q4, L_NEAR_AXIS, L_ON_AXIS, L_SMALL, L_LARGE, L_NEAR_SWITCH, L_PUSHED_OFF_CUT, L_WIDE_MODULUS, L_ALGO_CORNER };
+enum { L_FIELD, L_POWLOG, L_TRIG, L_ITRIG, L_HYP, L_IHYP, L_REALARG, L_PAIRS, L_Q1, L_Q2, L_Q3, L_Q4, L_NEAR_AXIS, L_ON_AXIS, L_SMALL, L_LARGE, L_NEAR_SWITCH, L_PUSHED_OFF_CUT, L_WIDE_MODULUS, L_ALGO_CORNER, L_LINKED };
 static char const *const labels[] = {"field_arithmetic", "sqrt_pow_exp_log", "trigonometric", "inverse_trigonometric", "hyperbolic", "inverse_hyperbolic", "real_argument_variants",
                                      "inverse_pairs", "quadrant_1", "quadrant_2", "quadrant_3", "quadrant_4", "near_axis", "exactly_on_axis", "modulus_lt_0.5", "modulus_gt_2",
-                                     "modulus_near_formula_switch", "moved_off_branch_cut", "modulus_beyond_2^+-27", "inverse_family_algorithm_region_corner", nullptr};
+                                     "modulus_near_formula_switch", "moved_off_branch_cut", "modulus_beyond_2^+-27", "inverse_family_algorithm_region_corner", "same_function_again_with_operand_mapped_through_the_library", nullptr};
 static char const *const metrics[] = {"field_err", "powlog_err", "trig_err", "itrig_err", "hyp_err", "ihyp_err", "realarg_err", "pairs_err", nullptr};
 static uint8_t const dict[] = {0, 1, 2, 3, 4, 5, 6, 7};
 static vp_info const info = {"C10", VP_CFG, "", labels, metrics, 96, dict, sizeof(dict)};
@@ -315,9 +315,34 @@ static LD kappa(Fn const &f, C z, C w, LD s, C fz)
     return k;
 }
 
+// Sub-cases of one tape run in one process and the library may not keep anything between calls. One linked form of sub-case
+// exercises that: the previous two-operand function is called again with its previous second operand mapped through a
+// one-operand library function (bases b, log b, log log b ...; exponents w, exp w ...). The oracle is unchanged.
+static int g_prev_id = -1;
+static a_complex g_prev_w;
+
 static void case_fn(Tape &t, Ctx &cx)
 {
-    unsigned id = t.u8() % NFN;
+    uint8_t idb = t.u8();
+    unsigned id = idb % NFN;
+    bool linked = false;
+    a_complex wl = {1, 0};
+    if (idb / NFN == 3 && g_prev_id >= 0 && fns[g_prev_id].arity == 2 && fns[id].arity == 1)
+    {
+        a_complex r0 = {a_real(0), a_real(0)}, dummy = {1, 0};
+        fns[id].call(&r0, g_prev_w, dummy, 1);
+        // only results inside the modulus window of the ordinary generator are fed back (the arguments stay in the domain
+        // every other sub-case draws from)
+        LD m0 = hypotl((LD)r0.real, (LD)r0.imag);
+        if (std::isfinite(double(r0.real)) && std::isfinite(double(r0.imag)) && m0 >= ldexpl(1, -EMAG) && m0 <= ldexpl(1, EMAG + 1))
+        {
+            cx.log("linked: previous function %s again, second operand = %s(previous second operand)\n", fns[g_prev_id].name, fns[id].name);
+            wl = r0;
+            id = unsigned(g_prev_id);
+            linked = true;
+            cx.label(L_LINKED);
+        }
+    }
     Fn const &f = fns[id];
     bool inter, inter2 = false;
     bool wide = (f.family == 0 || (f.family == 1 && f.growth == 0)) && strcmp(f.name, "polar") != 0;
@@ -344,7 +369,8 @@ static void case_fn(Tape &t, Ctx &cx)
     push_off_cut(f.cut, z, side, cx);
     if (f.arity == 2)
     {
-        w = gen_z(t, cx, inter2, wide);
+        if (linked) { w = wl; }
+        else { w = gen_z(t, cx, inter2, wide); }
         if (!strcmp(f.name, "logb")) { push_off_cut(CUT_NEGREAL, w, !side, cx); }
         if (f.growth == 3)
         {
@@ -372,6 +398,8 @@ static void case_fn(Tape &t, Ctx &cx)
         if (lm * we > EXPLIM) { ++cx.rep->excluded; return; }
     }
     if (z.real == 0 && z.imag == 0) { z.real = 1; }
+    g_prev_id = f.arity == 2 ? int(id) : -1;
+    g_prev_w = w;
     C Z((LD)z.real, (LD)z.imag), W((LD)w.real, (LD)w.imag);
     C ref = f.ref(Z, W, (LD)s);
     cx.hash.add(id);
@@ -518,6 +546,7 @@ static void case_pairs(Tape &t, Ctx &cx)
 static void run_case(Tape &t, Ctx &cx)
 {
     unsigned k = 0;
+    g_prev_id = -1;
     do {
         ++k;
         ++cx.rep->subcases;
